@@ -282,6 +282,7 @@ func c17Runner(c *Ctx, cmd *c17Cmd) {
 	// commander's ways of returning (extra_c17.go)
 	okOut := c17OutputOnSuccess(c, cmd)
 	c.Check(okOut, "runner/output-on-success", "the commander returns the captured stdout only when Run succeeded", w.FnPos(OUT), "stdout is returned otherwise")
+	c17StderrOnFailure(c, cmd, RUN, oc) // extra_c17.go: every failing exit after Run hands on the captured stderr
 	c17Metadata(c, RUN)
 }
 
